@@ -87,11 +87,11 @@ def system_event(s, optic, els, pos):
                     for e in els]}
 
 
-def record(s, rings, psf_rays, psf_grid, nstep):
+def record(s, rings, psf_rays, psf_grid, nstep, retarget=False):
     """Build one configuration and record everything the spec judges."""
     from optiland.wavefront import Wavefront
     from optiland.psf import FFTPSF
-    optic = S.build(s, W0)
+    optic = S.build(s, W0, retarget=retarget)
     els, pos = S.beam_chain(s, optic, W0)
     ev = [system_event(s, optic, els, pos)]
     sg = optic.surface_group
@@ -139,7 +139,10 @@ def config_task(args):
             s = S.fold(s)
         # every second configuration on an odd grid (the centre pixel is G // 2 there too)
         odd = (sum(map(ord, name + repr(cargs))) + int(folded)) % 2
-        ev, steps, stats = G.quiet(record, s, 6, 64 if quick else 128, (128 if quick else 256) - odd, 2 if quick else 3)
+        # every third configuration is reached by edits (set_index / set_conic / set_thickness)
+        retarget = (sum(map(ord, name + repr(cargs))) // 2 + int(folded)) % 3 == 1
+        ev, steps, stats = G.quiet(record, s, 6, 64 if quick else 128, (128 if quick else 256) - odd, 2 if quick else 3,
+                                   retarget)
     except Exception as ex:
         import traceback
         return {"error": "%s: %s" % (type(ex).__name__, ex), "tb": traceback.format_exc()[-1200:], "name": name,
